@@ -61,3 +61,10 @@ chk("C07", "exploration", "sanitizers (gcc ASan+UBSan+LSan, clang libFuzzer) ove
     "libFuzzer (JWK dictionary, 1.5e5 / 5e6 executions) adds coverage-guided inputs.",
     "Trusted: Python json as reference reader with the ambiguity list of DESIGN 2.6; sanitizers see libjwt code only.",
     "DESIGN.md 3/C07")
+chk("C15", "exploration", "bounded-exhaustive operation sequences + type-strict dict model over logged snapshots, under ASan/UBSan/LSan",
+    "All sequences up to length 3 (quick) / 4 (thorough) over a 39-operation alphabet and 2e4 / 5e5 random sequences to length 40 "
+    "with boundary values are executed on builder headers, builder claims and on the jwt_t handed to builder and checker "
+    "callbacks; every operation's return code, value.error, returned value and a dump of the whole object are compared with a "
+    "Python dict model of the statement.",
+    "Trusted: Python json for reading the dumps; unjudged operations (statement silent) are only required not to change the "
+    "object.", "DESIGN.md 3/C15")
